@@ -10,6 +10,8 @@ let fmt (r : (string, n, string) erec) =
 let run_line line =
   let toks = String.split_on_char ' ' line |> List.filter (fun s -> s <> "") in
   match toks with
+  | _ :: id :: rest when List.exists (fun t -> String.length t > 5 && String.sub t 0 5 = "hist=") rest ->
+    Printf.printf "%s unmodelled\n" id
   | _ :: id :: rest ->
     let recs k = match kv rest k with Some v -> List.map record_for (split_on ',' v) | None -> [] in
     (match merge_patches hash_eqb (recs "L") (recs "R") with
